@@ -6,6 +6,8 @@ import (
 	"encoding/json"
 	"fmt"
 	"os"
+	"runtime/debug"
+	"strings"
 	"testing"
 	"time"
 
@@ -112,6 +114,9 @@ func check[C any](r *runner, gen func(rt *rapid.T) C, eval func(c C) string) {
 			r.t.Fatalf("INFRA: %v", err)
 		}
 		if msg := guarded(eval, c); msg != "" {
+			if strings.HasPrefix(msg, "INFRA:") {
+				r.t.Fatalf("%s", msg)
+			}
 			r.col.Violation(ev.Violation{Msg: msg, Replay: rp})
 			r.t.Fatalf("replay fails: %s", msg)
 		}
@@ -120,6 +125,9 @@ func check[C any](r *runner, gen func(rt *rapid.T) C, eval func(c C) string) {
 	rapid.Check(r.t, func(rt *rapid.T) {
 		c := gen(rt)
 		if msg := guarded(eval, c); msg != "" {
+			if strings.HasPrefix(msg, "INFRA:") {
+				rt.Fatalf("%s", msg)
+			}
 			cb, _ := json.Marshal(c)
 			r.rec.Record(cb, msg)
 			if len(msg) >= 4 && msg[:4] == "HANG" {
@@ -141,7 +149,9 @@ func guarded[C any](eval func(c C) string, c C) string {
 	go func() {
 		defer func() {
 			if p := recover(); p != nil {
-				ch <- res{fmt.Sprintf("panic while evaluating the case: %v", p)}
+				// a panic here is in the harness itself (panics of generated code are
+				// caught inside the glue): never a verdict about gocc
+				ch <- res{fmt.Sprintf("INFRA: harness panic while evaluating the case: %v\n%s", p, debug.Stack())}
 			}
 		}()
 		ch <- res{eval(c)}
